@@ -825,7 +825,7 @@ pub fn run(seed: u64, tier: &str, outdir: &str) {
                         out.count("worker-died-outside-add_block");
                     }
                     start = cur_case + 1;
-                    if stalls > 40 {
+                    if stalls > (if tier == "thorough" { 200 } else { 40 }) {
                         out.count("too-many-stalls-stopped-early");
                         break 'outer;
                     }
